@@ -2,7 +2,7 @@
 From Coq Require Import String.
 From Coq Require Import List NArith ZArith Bool.
 From Dials Require Export Base.Outcome Base.Runes Reflect.Ty Reflect.Ptrify Stack.Overlay
-  Text.ParseText Sources.Flatten Sources.TimeText Sources.Decoders Sources.DecodersSpec.
+  Text.ParseText Sources.Flatten Sources.TimeText Sources.Decoders Sources.DecodersSpec Sources.AnonFlat.
 From Dials Require Import Check.C11Check Check.C12Check.
 Import ListNotations.
 Open Scope list_scope.
@@ -15,6 +15,7 @@ Definition fmt_of (n : N) : format :=
 Inductive c13case :=
 | Agree (w : bool) (fs : fields) (d : doc) (ij iy it ic : outcome (list val))
 | Corrupt (f : N) (w : bool) (fs : fields) (d : doc) (impl : outcome (list val))
+| Flat (w : bool) (fs : fields) (d : doc) (impl : outcome (list val))   (* decoders/yaml with FlattenAnonymous *)
 | Skipped (f : N).   (* corrupted text the library rejects (direct oracle only) or outside the document language *)
 
 (* known-finding class 1: the document holds the int64 minimum and the Cue
@@ -54,6 +55,17 @@ with has_textu (fs : fields) {struct fs} : bool :=
   | FCons _ _ _ t r => has_textu_ty t || has_textu r
   end.
 
+Definition one_flat (w : bool) (pfs : fields) (d : doc) (impl : outcome (list val)) : N :=
+  let model := if w then decode_yaml_flat_wrapped d pfs else decode_yaml_flat d pfs in
+  let spec := if w then spec_yaml_flat_wrapped d pfs else spec_yaml_flat d pfs in
+  (* the mangler cannot build a struct with two fields of one name: an error by construction,
+     which the specification shares (documented limit, not a reading of the data) *)
+  let spec := match model with Err 4 => Err 4 | _ => spec end in
+  match impl with
+  | Panic _ => 3
+  | _ => if cout_eqb impl spec then (if cout_eqb impl model then 0 else 1) else 3
+  end.
+
 Definition worst (a b : N) : N := if a =? 3 then 3 else if b =? 3 then 3 else N.max a b.
 
 Definition check (c : c13case) : N :=
@@ -75,6 +87,7 @@ Definition check (c : c13case) : N :=
       | _, Err _ => 0
       | _, Panic _ => 3
       end
+  | Flat w fs d impl => one_flat w (ptrify_fields fs) d impl
   | Skipped _ => 0
   end.
 
